@@ -2,6 +2,7 @@
 import ast
 import copy
 import json
+import os
 
 import common
 import gen
@@ -11,7 +12,8 @@ from common import Result, rng_for
 from props.c17 import strict_eq
 from props.c18 import walk
 
-DEFAULTS = [False, True, 0, 1, -1, 0.0, 1.5, "", "a", [], [0], [False, None], {}, {"a": 0}, {"": []}, None, "0", [[]], {"a": {"b": None}}, 2 ** 70]
+DEFAULTS = [False, True, 0, 1, -1, 0.0, 1.5, "", "a", [], [0], [False, None], {}, {"a": 0}, {"": []}, None, "0", [[]], {"a": {"b": None}}, 2 ** 70,
+            [{}], [{"name": "x"}], {"rows": [{"id": 0}]}, [[{"deep": None}]]]
 DESCRIPTIONS = ["A thing.", "", "two\nlines", "tab\there", "unicode é 日本", "trailing space ", " leading", "percent %s {x}",
                 'say "hi"', 'ends with quote"', 'triple """ inside', "back\\slash", "\\n literal", "  indented\n    more"]
 
@@ -231,6 +233,35 @@ def run(tier, seed, replay=None):
                 if t2 is not None and (not has_default(t2) or not strict_eq(t2.default, d)):
                     res.violation(dict(payload, kind="oracle", module=text[:1500], what="the generated Python source lost or altered the default %r" % (d,)))
             except BaseException as exc:  # noqa   (generation/exec failures are C02's subject)
+                pass
+        # 5. the same schema OBJECT parsed a second time (what happens to a definition referenced twice, or a document parsed again):
+        #    the element found there carries the default again
+        try:
+            again = copy.deepcopy(outer)
+            parse(again)
+            elems2 = parse(again)
+            t2 = locate(elems2, elems2[0], path)
+            stats["second_parse_checked"] = stats.get("second_parse_checked", 0) + 1
+            if not has_default(t2) or not strict_eq(t2.default, d):
+                res.violation(dict(payload, kind="oracle", what="parsing the same schema object a second time loses or alters the default %r (got %r)" % (
+                    d, getattr(t2, "default", None))))
+                continue
+        except BaseException:  # noqa
+            pass
+        # 6. through the generator's own front end: every JSON object of the document - those inside literal values included - is
+        #    annotated by json_ref_dict.materialize(context_labeller=title_labeller()) before it reaches the parser
+        if isinstance(d, (dict, list)) and d:
+            try:
+                from props.c02 import write_docs, parsed_elements
+                dd = write_docs({"main.json": outer}, "c07_%d" % stats["cases"])
+                elems3, _ = parsed_elements(os.path.join(dd, "main.json"))
+                t3 = locate(elems3, elems3[0], path)
+                stats["labelled_checked"] = stats.get("labelled_checked", 0) + 1
+                if not has_default(t3) or not strict_eq(t3.default, d):
+                    res.violation(dict(payload, kind="oracle", what="after the auto-title annotation step the parsed element carries the default %r, not %r" % (
+                        getattr(t3, "default", None), d)))
+                    continue
+            except BaseException:  # noqa
                 pass
         corr_items.append((outer, [], "default"))
         res.sample({"shape": label, "position": path[0], "default": d}, limit=5)
